@@ -292,14 +292,25 @@ impl Band {
     /// Check that no index hunks are missing: they must be numbered consecutively from
     /// zero, and if the band is closed there must be as many as its tail says.
     pub async fn check_index_hunks(&self) -> Result<()> {
-        let hunks = self.index().hunks_available().await?;
-        if let Some(missing) = (0u32..).zip(hunks.iter()).find(|(i, h)| i != *h).map(|(i, _)| i) {
+        let hunks = self.index().hunk_lengths().await?;
+        if let Some(missing) = (0u32..)
+            .zip(hunks.iter())
+            .find(|(i, (h, _len))| i != h)
+            .map(|(i, _)| i)
+        {
             return Err(Error::InvalidMetadata {
                 details: format!("Index hunk {missing} is missing from band {}", self.band_id),
             });
         }
-        let tail: Option<Tail> = read_json(&self.transport, BAND_TAIL_FILENAME).await?;
-        if let Some(expected) = tail.and_then(|tail| tail.index_hunk_count) {
+        // The tail may itself be the zero-length leftover of a write interrupted at the very
+        // end: then the band counts as closed but the expected number of hunks is unknown.
+        let (closed, expected) =
+            match read_json::<Tail>(&self.transport, BAND_TAIL_FILENAME).await {
+                Ok(None) => (false, None),
+                Ok(Some(tail)) => (true, tail.index_hunk_count),
+                Err(_) => (true, None),
+            };
+        if let Some(expected) = expected {
             if hunks.len() as u64 != expected {
                 return Err(Error::InvalidMetadata {
                     details: format!(
@@ -309,6 +320,18 @@ impl Band {
                     ),
                 });
             }
+        }
+        // A zero-length hunk can only be the last thing an interrupted backup wrote.
+        if let Some((empty, _)) = hunks
+            .iter()
+            .enumerate()
+            .filter(|(i, _)| closed || i + 1 != hunks.len())
+            .map(|(_, h)| h)
+            .find(|(_, len)| *len == 0)
+        {
+            return Err(Error::InvalidMetadata {
+                details: format!("Index hunk {empty} of band {} is empty", self.band_id),
+            });
         }
         Ok(())
     }
